@@ -581,6 +581,86 @@ static void sec_misuse(vf::Ctx& c) {
     c.nontrivial(std::string(ENTRY[entry]) + KIND[kind] + std::to_string(msize));
 }
 
+// ------------------------------------------------------------------ an allocation that FAILS while the lock is held
+// A request the detector or the allocator cannot satisfy (size + accounting overflows size_t, size no machine has) comes back as NULL /
+// bad_alloc: no misuse, just an unsuccessful allocation. It must not leave the detector's lock held: the same thread and another thread
+// allocate afterwards. Observed by the mutex monitor at the quiescent point after the failing request (owner must be nobody).
+enum AF { AF_NEW, AF_NEWARR, AF_NEW_LOC, AF_NEWARR_LOC, AF_NEW_NOTHROW, AF_NEWARR_NOTHROW, AF_MALLOC, AF_REALLOC, AF_REALLOC_NULL, AF_N };
+static const char* AF_NAME[] = { "operator new", "operator new[]", "operator new(file,line)", "operator new[](file,line)", "operator new(nothrow)", "operator new[](nothrow)", "cpputest_malloc", "cpputest_realloc", "cpputest_realloc(NULL)" };
+static int g_af; static size_t g_afsize; static int g_af_outcome, g_af_owner_after, g_af_stage; static bool g_af_other_done;
+static void* af_request(int how, size_t n, char* old) {
+    switch (how) {
+    case AF_NEW: return ::operator new(n);
+    case AF_NEWARR: return ::operator new[](n);
+    case AF_NEW_LOC: return ::operator new(n, "c10_threads.cpp", (size_t) 901);
+    case AF_NEWARR_LOC: return ::operator new[](n, "c10_threads.cpp", (size_t) 902);
+    case AF_NEW_NOTHROW: return ::operator new(n, std::nothrow);
+    case AF_NEWARR_NOTHROW: return ::operator new[](n, std::nothrow);
+    case AF_MALLOC: return cpputest_malloc(n);
+    case AF_REALLOC: return cpputest_realloc(old, n);
+    default: return cpputest_realloc(NULL, n);
+    }
+}
+static void* af_other_thread(void*) {
+    t_id = 1;
+    char* a = (char*) ::operator new(24); ::operator delete(a);
+    char* b = (char*) cpputest_malloc(8); cpputest_free(b);
+    g_af_other_done = true;
+    return nullptr;
+}
+static void allocfail_body() {
+    g_af_stage = 1;
+    char* old = g_af == AF_REALLOC ? (char*) cpputest_malloc(16) : NULL;
+    void* p = NULL; g_af_outcome = 0;
+#ifndef VF_NOEXC
+    try { p = af_request(g_af, g_afsize, old); g_af_outcome = p ? 1 : 2; } catch (...) { g_af_outcome = 3; }
+#else
+    p = af_request(g_af, g_afsize, old); g_af_outcome = p ? 1 : 2;
+#endif
+    g_af_owner_after = g_owner.load();            // quiescent: the failing request is over
+    g_af_stage = 2;
+    // the same thread goes on allocating (with the real mutex this would be the self-deadlock) ...
+    char* a = (char*) ::operator new(16); ::operator delete(a);
+    char* b = (char*) cpputest_malloc(8); b = (char*) cpputest_realloc(b, 32); cpputest_free(b);
+    if (old && g_af_outcome != 1) cpputest_free(old);            // a failed realloc leaves the old block alone
+    g_af_stage = 3;
+    // ... and so does another thread
+    if (g_owner.load() == -1) { pthread_t th; if (pthread_create(&th, nullptr, af_other_thread, nullptr) == 0) pthread_join(th, nullptr); }
+    g_af_stage = 4;
+}
+static void sec_allocfail(vf::Ctx& c) {
+    static const size_t SZ[] = { (size_t) -1, (size_t) -1 - 8, (size_t) -1 - 64, ((size_t) 1 << 62), ((size_t) 1 << 48) + 5 };
+    g_af = (int) (c.idx % AF_N); g_afsize = SZ[(c.idx / AF_N) % 5];
+    int af = g_af; size_t afsize = g_afsize;
+    c.begin([=] { return vf::J().k("request", AF_NAME[af]).k("size", (unsigned long) afsize).str(); });
+    (void) MemoryLeakWarningPlugin::getGlobalDetector();
+    std::string keytail = std::string(":via=") + AF_NAME[af];
+    uint64_t self_deadlocks = 0; size_t failures = 0;
+    g_af_stage = 0; g_af_other_done = false; g_af_owner_after = -1; g_af_outcome = 0;
+    {
+        TestTestingFixture fx;
+        install_wrapper();
+        t_id = 0;
+        MemoryLeakWarningPlugin::turnOnThreadSafeNewDeleteOverloads();
+        fx.setTestFunction(allocfail_body);
+        fx.runAllTests();
+        failures = fx.getFailureCount();
+        self_deadlocks = g_self_deadlocks.load();
+        if (g_owner != -1) { g_owner = -1; real_unlock(g_last_mutex.load()); }
+        MemoryLeakWarningPlugin::turnOnDefaultNotThreadSafeNewDeleteOverloads();
+        remove_wrapper();
+    }
+    if (g_af_outcome == 1) { c.count("allocation_failure_scenarios_request_succeeded_unjudged"); return; }      // the machine gave the block: no failure to look at
+    if (g_af_stage < 2) { c.count("allocation_failure_scenarios_left_the_test_unjudged"); return; }                // reported as a test failure that leaves the test: the misuse section's business
+    if (g_af_owner_after != -1 || self_deadlocks)
+        c.violation("lock-held-after-failed-allocation" + keytail, "detector mutex still owned (owner " + std::to_string(g_af_owner_after) + ") after the request returned " + (g_af_outcome == 3 ? "by exception" : "NULL") + "; " + std::to_string(self_deadlocks) + " self-deadlocking acquisitions intercepted by the monitor");
+    else if (g_af_stage == 4 && !g_af_other_done) c.violation("other-thread-did-not-allocate-after-failed-allocation" + keytail, "");
+    (void) failures;
+    c.count("allocation_failure_scenarios");
+    c.count(g_af_outcome == 3 ? "allocation_failures_by_exception" : "allocation_failures_by_null");
+    c.nontrivial(std::string("af") + AF_NAME[af] + std::to_string(afsize));
+}
+
 int main(int argc, char** argv) {
     g_log = (int*) malloc(sizeof(int) * LOG_CAP);
     std::vector<vf::Section> S = {
@@ -591,6 +671,7 @@ int main(int argc, char** argv) {
 #endif
         { "owner_holds_lock_over_3s", 1, 3, sec_long_hold, false },
         { "misuse_while_locked", E_N * K_N * 4, E_N * K_N * 4, sec_misuse, true },
+        { "allocation_failure_while_locked", AF_N * 5, AF_N * 5, sec_allocfail, true },
     };
     return vf::harness_main(argc, argv, S);
 }
